@@ -276,8 +276,9 @@ with parse_args (fuel : nat) (ts : list token) : option (list expr * list token)
     end
   end.
 
-(* Python == together with hash, as dict/set keys see pytd nodes: structural and ordered, except that
-   Literal(True) and Literal(1) (False and 0) are the same key *)
+(* Python == together with hash, as dict/set keys see pytd nodes: structural, with Literal(True) and Literal(1)
+   (False and 0) the same key, and — since _SetOfTypes.__hash__ hashes frozenset(type_list) — unions compared as
+   sets (UnionType.__eq__), also when they are nested inside other members *)
 Definition lit_eqb (a b : lit) : bool :=
   match a, b with
   | LInt x, LInt y => (x =? y)%Z
@@ -306,7 +307,9 @@ Fixpoint ty_eqb (a b : ty) : bool :=
   | Generic b1 p1, Generic b2 p2 => name_eqb b1 b2 && list_eqb ty_eqb p1 p2
   | TupleT b1 p1, TupleT b2 p2 => name_eqb b1 b2 && list_eqb ty_eqb p1 p2
   | CallableT b1 p1, CallableT b2 p2 => name_eqb b1 b2 && list_eqb ty_eqb p1 p2
-  | Union t1, Union t2 => list_eqb ty_eqb t1 t2
+  | Union t1, Union t2 =>
+      forallb (fun x => existsb (fun y => ty_eqb x y) t2) t1 &&
+      forallb (fun y => existsb (fun x => ty_eqb x y) t1) t2
   | Annot t1 a1, Annot t2 a2 => ty_eqb t1 t2 && list_eqb N.eqb a1 a2
   | _, _ => false
   end.
